@@ -65,7 +65,7 @@ func TestC19Driver(t *testing.T) {
 			}
 			s.Star = rapid.SampledFrom([]int{-1, -1, 0, 1, 2}).Draw(t, "star")
 			s.Bad = rapid.SampledFrom([]string{"", "", "", "", "table", "column", "not-select", "syntax"}).Draw(t, "bad")
-			s.Plan = rapid.SampledFrom([]string{"all", "all", "close", "cancel", "cancel-async", "corrupt", "truncate", "prepared", "prepared-alter", "nested"}).Draw(t, "plan")
+			s.Plan = rapid.SampledFrom([]string{"all", "all", "close", "cancel", "cancel-async", "corrupt", "truncate", "prepared", "prepared-alter", "nested", "prepared-wal"}).Draw(t, "plan")
 			s.K = rapid.IntRange(0, 12).Draw(t, "k")
 			s.Yields = rapid.IntRange(0, 50).Draw(t, "yields")
 			s.Corrupt = rapid.IntRange(0, 1000).Draw(t, "corrupt")
@@ -260,6 +260,10 @@ func run(r *vt.Run, t vt.TB, s spec) {
 	}
 	if s.Plan == "nested" {
 		runNested(r, t, s, db, path, query, want, wantErr, before)
+		return
+	}
+	if s.Plan == "prepared-wal" {
+		runPreparedWAL(r, t, s, db, path, query, want, wantErr, before)
 		return
 	}
 	ctx, cancel := context.WithCancel(context.Background())
@@ -589,6 +593,117 @@ func runNested(r *vt.Run, t vt.TB, s spec, db *sql.DB, path, query string, want 
 	if (st.Shared.Type != "none" && st.Shared.Pid == me) || (st.Pending.Type != "none" && st.Pending.Pid == me) {
 		r.Violation(t, s, "lock-left-behind", "%s (two result sets on one %s): both closed, this process still holds %s", query, kind, st)
 	}
+}
+
+// runPreparedWAL: a prepared statement lives through a time in which the file
+// cannot be read: SQLite switches it to WAL mode, the statement's execution
+// has to fail (and leave no lock behind: SQLite must be able to switch back),
+// and after the switch back it delivers the native rows again.
+func runPreparedWAL(r *vt.Run, t vt.TB, s spec, db *sql.DB, path, query string, want [][]interface{}, wantErr error, before int) {
+	stmt, err := db.Prepare(query)
+	if err != nil {
+		if wantErr == nil {
+			r.Violation(t, s, "spurious-error", "%s: Prepare fails: %v", query, err)
+		}
+		return
+	}
+	defer stmt.Close()
+	me := os.Getpid()
+	exec := func() (got [][]interface{}, surfaced error) {
+		rows, err := stmt.Query()
+		if err != nil {
+			return nil, err
+		}
+		defer rows.Close()
+		cols, _ := rows.Columns()
+		for rows.Next() {
+			dest := make([]interface{}, len(cols))
+			ptrs := make([]interface{}, len(cols))
+			for i := range dest {
+				ptrs[i] = &dest[i]
+			}
+			if err := rows.Scan(ptrs...); err != nil {
+				return got, err
+			}
+			got = append(got, dest)
+		}
+		return got, rows.Err()
+	}
+	judge := func(when string, got [][]interface{}, surfaced error) bool {
+		if wantErr != nil {
+			if surfaced == nil {
+				r.Violation(t, s, "error-not-surfaced", "%s (prepared statement, %s): the native API fails (%v), database/sql reports nothing after %d rows", query, when, wantErr, len(got))
+				return false
+			}
+			return true
+		}
+		if surfaced != nil {
+			r.Violation(t, s, "spurious-error", "%s (prepared statement, %s): %v; the native select succeeds with %d rows", query, when, surfaced, len(want))
+			return false
+		}
+		if len(got) != len(want) {
+			r.Violation(t, s, "silently-short", "%s (prepared statement, %s): %d of %d rows", query, when, len(got), len(want))
+			return false
+		}
+		for i := range got {
+			if renderAny(got[i]) != renderAny(want[i]) {
+				r.Violation(t, s, "row-differs", "%s (prepared statement, %s): row %d is %s, natively %s", query, when, i, renderAny(got[i]), renderAny(want[i]))
+				return false
+			}
+		}
+		return true
+	}
+	noLock := func(when string) bool {
+		deadline := time.Now().Add(5 * time.Second)
+		for producerGoroutines() > before {
+			if time.Now().After(deadline) {
+				r.Violation(t, s, "goroutine-leak", "%s (prepared statement, %s): a producer goroutine is still running 5 s after the result set was closed", query, when)
+				return false
+			}
+			time.Sleep(2 * time.Millisecond)
+		}
+		st, perr := probe.Probe(path)
+		if perr != nil {
+			r.Harness(t, "probe: %v", perr)
+		}
+		if (st.Shared.Type != "none" && st.Shared.Pid == me) || (st.Pending.Type != "none" && st.Pending.Pid == me) {
+			r.Violation(t, s, "lock-left-behind", "%s (prepared statement, %s): the result set is closed, this process still holds %s", query, when, st)
+			return false
+		}
+		return true
+	}
+	got, surfaced := exec()
+	if !judge("first execution", got, surfaced) || !noLock("first execution") {
+		return
+	}
+	if err := env.O.Open("wal", path); err != nil {
+		r.Harness(t, "wal: open: %v", err)
+	}
+	defer env.O.Close("wal")
+	if rows, err := env.O.Query("wal", "PRAGMA journal_mode=WAL"); err != nil || len(rows) != 1 || string(rows[0][0].B) != "wal" {
+		r.Harness(t, "switch to WAL: %v %v", rows, err)
+	}
+	got, surfaced = exec()
+	if surfaced == nil {
+		r.Violation(t, s, "error-not-surfaced", "%s (prepared statement): the file is in WAL mode now, the execution reports nothing after %d rows", query, len(got))
+		return
+	}
+	if len(got) > 0 && wantErr == nil && len(got) > len(want) {
+		r.Violation(t, s, "extra-rows", "%s (prepared statement, file in WAL mode): %d rows", query, len(got))
+		return
+	}
+	if !noLock("execution refused because the file is in WAL mode") {
+		return
+	}
+	if rows, err := env.O.Query("wal", "PRAGMA journal_mode=DELETE"); err != nil || len(rows) != 1 || string(rows[0][0].B) != "delete" {
+		r.Violation(t, s, "lock-left-behind", "%s (prepared statement): after the execution that was refused because of WAL mode SQLite cannot switch the file back: %v %v", query, rows, err)
+		return
+	}
+	got, surfaced = exec()
+	if !judge("execution after the file left WAL mode again", got, surfaced) {
+		return
+	}
+	noLock("execution after the file left WAL mode again")
 }
 
 func bucket(n int) int {
